@@ -79,3 +79,7 @@ func (cc *ClusterContext) VerifStopPartitionManagers() {
 		}
 	}
 }
+
+// VerifMoveTerminatedApp runs the terminated-application callback of the partition for the given application id:
+// what the goroutine started by Application.executeTerminatedCallback does, at a moment chosen by the harness.
+func (pc *PartitionContext) VerifMoveTerminatedApp(appID string) { pc.moveTerminatedApp(appID) }
